@@ -802,6 +802,7 @@ def run_nested(case):
     action, task, exc = _mods()
     verb = {int(k): v for k, v in case.get('verb', {}).items()}
     ending = {int(k): v for k, v in case.get('ending', {}).items()}
+    capm = {int(k): v for k, v in case.get('cap', {}).items()}     # opt-in (kind 'ncnest'): io.capture per action
     tasks = {}
     ident_after = []
 
@@ -833,7 +834,10 @@ def run_nested(case):
                     return 'res%d' % a
                 return True
         v = verb.get(a, 0)
-        t = task.Task('t%d' % a, [fn], verbosity=v)
+        if a in capm:
+            t = task.Task('t%d' % a, [fn], verbosity=v, io={'capture': capm[a]})
+        else:
+            t = task.Task('t%d' % a, [fn], verbosity=v)
         tasks[a] = t
         call(lambda: t.execute(task.Stream(v)))
         if owner is None:
